@@ -33,6 +33,8 @@ func init() {
 				r := ev.New(id, reg.Tier, "model_checking")
 				if len(a) > 1 && a[0] == "sched" {
 					runOneSched(r, a[1])
+				} else if len(a) > 0 && a[0] == "race" {
+					raceWorker(r)
 				} else {
 					run(r, id)
 				}
@@ -617,6 +619,9 @@ func run(r *ev.Run, id string) {
 	sweeps(r, id)
 	if id == "C04" || id == "C05" || id == "C06" {
 		runSched(r)
+	}
+	if id == "C04" || id == "C06" {
+		racePass(r)
 	}
 }
 
